@@ -19,6 +19,10 @@ def main():
     out["diamond_ids"] = [fid(m.Diamond(x=1)), fid(m.Diamond(x=5)), fid(m.Diamond(z=7))]
     out["none_default"] = [fid(m.HolderB()), fid(m.HolderB(sub=m.OptB(o=None))), fid(m.HolderB(sub=m.OptB()))]
     out["none_default_value"] = m.HolderB().sub.o
+    try:
+        out["union_dict_ids"] = [fid(m.UD(d={"a": {"b": 1}, "c": 2})), fid(m.UD(d={"a": {"b": 1, "c": 2}}))]
+    except Exception as e:  # noqa
+        out["union_dict_ids"] = "exc:" + type(e).__name__
     sys.stderr = open("/dev/null", "w")
     print(json.dumps(out))
 
